@@ -6,7 +6,7 @@ export CARGO_TARGET_DIR=$W/target CARGO_NET_OFFLINE=true
 cd $W || exit 2
 git checkout -q -- . 2>/dev/null
 CRATE=$(python3 -c "import json;print(json.load(open('$M/m${K}_meta.json'))['crate'])")
-FEAT=""
+FEAT=""; if [ "$CRATE" = "noodles-util" ]; then FEAT="--features alignment,variant"; fi
 mkdir -p $W/$CRATE/tests; cp $M/m${K}_demo.rs $W/$CRATE/tests/m${K}_demo.rs
 git apply $M/m$K.diff || { echo "CONFIRM $ID m$K: PATCH DOES NOT APPLY"; exit 1; }
 (cargo test --offline -p $CRATE --lib $FEAT && cargo test --offline -p $CRATE --doc $FEAT) > /tmp/vt/confirm_${ID}_$K.existing.log 2>&1; EX=$?
